@@ -93,6 +93,8 @@ VARIANTS = {
     "asan": ("h-", CXXFLAGS, ["-fsanitize=address,undefined"]),
     # no sanitizer; harness/h_mallocfill.cpp interposes malloc/realloc/free and fills from $VERIF_FILL_SEED
     "plain": ("hp-", ["-std=c++14", "-O1", "-g", "-fno-omit-frame-pointer", "-DCTRMML_VERIF", "-DVERIF_MALLOC_FILL"], []),
+    # the general build WITH UBSan's alignment check (C15, check attribute HARNESS_VARIANT; DESIGN D22)
+    "align": ("ha-", [f for f in CXXFLAGS if f != "-fno-sanitize=alignment"], ["-fsanitize=address,undefined"]),
 }
 
 
@@ -142,11 +144,12 @@ def build_harness(variant="asan"):
         return exe
 
 
-def build_tools():
+def build_tools(variant="asan"):
     """The two command-line tools of the current tree (mmlc, mdslink), compiled with the harness
-    flags (ASan+UBSan) and linked against the library objects of build_harness(); cached in the
-    same build directory (same source hash).  Returns {'mmlc': path, 'mdslink': path}."""
-    bdir = os.path.dirname(build_harness())
+    flags (ASan+UBSan) and linked against the library objects of build_harness(variant); cached in
+    the same build directory (same source hash).  Returns {'mmlc': path, 'mdslink': path}."""
+    bdir = os.path.dirname(build_harness(variant))
+    cxxflags = VARIANTS[variant][1]
     tools = {"mmlc": os.path.join(REPO, "src", "mmlc.cpp"), "mdslink": os.path.join(REPO, "src", "platform", "mdslink.cpp")}
     out = {n: os.path.join(bdir, n) for n in tools}
     with Lock(".tools.lock"):
@@ -155,7 +158,7 @@ def build_tools():
         libobjs = sorted(os.path.join(bdir, "obj", f) for f in os.listdir(os.path.join(bdir, "obj")) if f.startswith("lib_"))
         for n, src in tools.items():
             obj = os.path.join(bdir, "obj", "tool_%s.o" % n)
-            s, rc, err = _compile((src, obj, CXXFLAGS))
+            s, rc, err = _compile((src, obj, cxxflags))
             if rc != 0:
                 raise InfraError("tool compile failed: %s\n%s" % (src, err[-3000:]))
             r = subprocess.run(["g++", "-fsanitize=address,undefined", obj] + libobjs + ["-o", out[n] + ".tmp"], capture_output=True, text=True)
@@ -491,7 +494,7 @@ def run_check(spec, tier, seed, replay=None):
         # the driver shares definitions with the proofs; a broken model is a broken obligation
         if proof["status"] == "proved":
             proof.update(status="broken", why="model driver does not build: " + dout[-400:])
-    hexe = build_harness()
+    hexe = build_harness(getattr(spec, "HARNESS_VARIANT", "asan"))
     cases = list(spec.cases(rng, tier)) if replay is None else [Case(replay, ("replay",), "replay")]
     reqs = [c.req for c in cases]
     secs = getattr(spec, "CASE_SECONDS", 10)
@@ -520,7 +523,13 @@ def run_check(spec, tier, seed, replay=None):
         model = ["driver-missing"] * len(reqs)
         judge = ["skip"] * len(reqs)
     norm = getattr(spec, "normalize", lambda x: x)
-    diffs = [i for i in range(len(reqs)) if norm(impl[i]) != norm(model[i]) and impl[i] != "not-run-after-timeouts"]
+    # optional spec.agree(case, impl, model): a correspondence relation that is not plain equality
+    # (C15: the model may answer "at least this stage is reached")
+    if hasattr(spec, "agree"):
+        same = lambda i: spec.agree(cases[i], impl[i], model[i])
+    else:
+        same = lambda i: norm(impl[i]) == norm(model[i])
+    diffs = [i for i in range(len(reqs)) if not same(i) and impl[i] != "not-run-after-timeouts"]
     if getattr(spec, "NO_MODEL_STREAM", False):
         # the executable model of this component is not written yet: only the spec oracle judges
         diffs = []
@@ -612,7 +621,7 @@ def run_check(spec, tier, seed, replay=None):
     samples = []
     step = max(1, len(cases) // 4)
     for i in range(0, len(cases), step):
-        samples.append({"request": reqs[i][:300], "impl": impl[i][:300], "model_agrees": norm(impl[i]) == norm(model[i]), "judge": judge[i][:120]})
+        samples.append({"request": reqs[i][:300], "impl": impl[i][:300], "model_agrees": same(i), "judge": judge[i][:120]})
     ev = {
         "property_id": pid, "tier": tier, "seed": seed, "level": spec.LEVEL,
         "coverage": {
